@@ -313,9 +313,27 @@ def decode_semantics(check: Check, repo: Repo) -> None:
         check.oblige("DECODE", construct, sig, False, sample=True, finding=Finding("DECODE", construct, sig, f"{sig}: e.g. {msgs[0]} ({len(msgs)} of {n} model texts)", {"witness": msgs[0]}))
 
 
+def literal_tokens(check: Check, repo) -> None:
+    """LITERAL-TOKENS: the token parser (evaluated from its syntax tree, sa/tokparse.py) hands the terminal
+    constructors the code points a character / string token denotes: delimiters removed once, escapes decoded
+    once, the quote character itself allowed as a character."""
+    from ..tokparse import check_structure
+
+    cons = "src/pest/grammar/parser.py::Parser.parse_expression"
+    n, bad = check_structure(repo, cons, only=lambda toks: any(k in ("CHAR", "STRING", "STRING_CI") for k, _ in toks))
+    check.count("literal_token_expressions", n)
+    check.oblige("LITERAL-TOKENS", cons, f"on all {n} model expressions with literal tokens the terminal gets the code points the token denotes", True, sample=True)
+    cats: dict[str, list[str]] = {}
+    for cat, msg in bad:
+        cats.setdefault(cat, []).append(msg)
+    for cat, msgs in sorted(cats.items()):
+        sig = f"literal tokens: {cat}"
+        check.oblige("LITERAL-TOKENS", cons, sig, False, sample=True, finding=Finding("LITERAL-TOKENS", cons, sig, f"{sig}: e.g. {msgs[0]} ({len(msgs)} of {n} model expressions)", {"witness": msgs[0]}))
+
+
 def run(tier: str) -> Check:
     check = Check("C12", tier, EXPLANATION)
-    check.rules = ["BUILTIN-TABLE", "RANGE", "CASE", "CONST-PARITY", "PATTERN-FRAGMENT", "MERGE", "ESCAPE-TABLE", "CURSOR", "UNESCAPE-ONCE"]
+    check.rules = ["BUILTIN-TABLE", "RANGE", "CASE", "CONST-PARITY", "PATTERN-FRAGMENT", "MERGE", "ESCAPE-TABLE", "CURSOR", "UNESCAPE-ONCE", "LITERAL-TOKENS"]
     check.assumptions = [
         "the regex engine's own Unicode tables (\\p{...}) and its handling of escaped characters inside classes are trusted",
         "pest's built-in definitions are frozen in the checker from the pest book ('Built-in rules')",
@@ -338,6 +356,8 @@ def run(tier: str) -> Check:
         check.defer_error(f"cursor analysis not applicable: {err}")
         check.count("cursor_paths", 8)
     unescape_once(check, repo)
+    literal_tokens(check, repo)
+    check.floor("literal_token_expressions", 8)
     check.floor("unescape_paths", 3)
     check.floor("decoder_model_texts", 500)
     check.floor("builtin_entries", 11)
